@@ -112,7 +112,7 @@ ASSUMPTIONS = [
 
 def setup():
     vlib.build(("d1",))
-    if os.path.isdir(os.path.join(VERIF, "harness/d2")) and os.path.exists(os.path.join(VERIF, "harness/d2/Cargo.toml")):
+    if os.path.exists(os.path.join(vlib.HARNESS, "d2/Cargo.toml")):
         vlib.build(("d2",))
     # parse every module
     bad = 0
